@@ -1694,6 +1694,47 @@ def _first_match_form(loop):
     return pre, iff, rest
 
 
+def _reads_after(fn, st, names):
+    """is one of `names` read after statement st: in a statement that follows it in its block or in an enclosing block, or anywhere
+    else inside a loop that encloses it (the loop may come round again)"""
+    chain = []
+
+    def find(node, trail):
+        for field in ("body", "orelse", "finalbody"):
+            stmts = getattr(node, field, None)
+            if isinstance(stmts, list) and stmts and isinstance(stmts[0], ast.stmt):
+                for i, x in enumerate(stmts):
+                    if x is st:
+                        chain.extend(trail + [(node, stmts, i)])
+                        return True
+                    if find(x, trail + [(node, stmts, i)]):
+                        return True
+        if isinstance(node, ast.Try):
+            for h in node.handlers:
+                for i, x in enumerate(h.body):
+                    if x is st:
+                        chain.extend(trail + [(h, h.body, i)])
+                        return True
+                    if find(x, trail + [(h, h.body, i)]):
+                        return True
+        return False
+
+    if not find(fn, []):
+        return True
+    inside = {id(y) for y in ast.walk(st)}
+
+    def reads(nodes):
+        return any(isinstance(x, ast.Name) and x.id in names and isinstance(x.ctx, ast.Load) and id(x) not in inside for nd in nodes for x in ast.walk(nd))
+
+    for holder, stmts, i in chain:
+        if reads(stmts[i + 1:]):
+            return True
+        if isinstance(holder, (ast.For, ast.While, ast.AsyncFor)):
+            if reads([holder]):
+                return True
+    return False
+
+
 def normalise_table_unroll(tree):
     """a `for` statement or a list/set/dict comprehension that walks a small literal table - written in place, bound once to a local
     of the same function, or bound once at module level - is the sequence of its bodies with the table's entries written out:
@@ -1867,7 +1908,7 @@ def normalise_table_unroll(tree):
                             for x in ast.walk(b):
                                 if isinstance(x, (ast.Name, ast.Attribute)) and isinstance(x.ctx, (ast.Store, ast.Del)):
                                     assigned.add(norm_name(x))
-                        later = [x for x in ast.walk(fn) if isinstance(x, ast.Name) and x.id in tnames and isinstance(x.ctx, ast.Load) and not any(x is y for b in st.body for y in ast.walk(b))]
+                        later = _reads_after(fn, st, tnames)
                         if any(a == r or r.startswith(a + ".") for a in assigned for r in roots) or later or (assigned & tnames) \
                                 or (isinstance(st.iter, ast.Name) and st.iter.id in mod_tables and tab is mod_tables[st.iter.id] and {r.split(".")[0] for r in roots} & local_binds(fn)):
                             continue
@@ -1900,8 +1941,7 @@ def normalise_table_unroll(tree):
                     if isinstance(st.iter, ast.Name) and st.iter.id in mod_tables and tab is mod_tables[st.iter.id] and {r.split(".")[0] for r in roots} & local_binds(fn):
                         continue
                     # loop variables must be dead after the loop
-                    later = [x for x in ast.walk(fn) if isinstance(x, ast.Name) and x.id in tnames and isinstance(x.ctx, ast.Load) and not any(x is y for b in st.body for y in ast.walk(b))]
-                    if later:
+                    if _reads_after(fn, st, tnames):
                         continue
                     new = []
                     for r in rows:
@@ -2292,6 +2332,270 @@ def normalise_suppress(tree):
     return n[0]
 
 
+def normalise_partial(tree, known):
+    """`functools.partial(F, a, k=v)` with F a function defined in the same module (plain positional parameters) is the function of
+    F's remaining required parameters `lambda r1, r2: F(a, r1, r2, k=v)`; when F is a new one-line helper `return E` the call is
+    written out (`lambda r1: E[...]`).  The bound arguments must be constants or names that are not re-bound afterwards (partial
+    takes their value when it is built, a lambda when it is called)."""
+    names, mods = set(), set()
+    for st in ast.walk(tree):
+        if isinstance(st, ast.ImportFrom) and st.module == "functools":
+            for a in st.names:
+                if a.name == "partial":
+                    names.add(a.asname or a.name)
+        elif isinstance(st, ast.Import):
+            for a in st.names:
+                if a.name == "functools":
+                    mods.add(a.asname or a.name)
+    if not names and not mods:
+        return 0
+    defs = {}
+    for d in tree.body:
+        if isinstance(d, ast.FunctionDef):
+            defs[d.name] = None if d.name in defs else d
+    n = [0]
+
+    def is_partial(e):
+        return isinstance(e, ast.Call) and e.args and not any(isinstance(a, ast.Starred) for a in e.args) and all(k.arg for k in e.keywords) and (
+            (isinstance(e.func, ast.Name) and e.func.id in names) or (isinstance(e.func, ast.Attribute) and e.func.attr == "partial" and isinstance(e.func.value, ast.Name) and e.func.value.id in mods))
+
+    def simple(e):
+        if isinstance(e, ast.Constant):
+            return True
+        while isinstance(e, ast.Attribute):
+            e = e.value
+        return isinstance(e, ast.Name)
+
+    for fn in [None] + [f for f in ast.walk(tree) if isinstance(f, (ast.FunctionDef, ast.AsyncFunctionDef))]:
+        scope = fn if fn is not None else tree
+        stores = {}
+        for x in ast.walk(scope):
+            if isinstance(x, ast.Name) and isinstance(x.ctx, (ast.Store, ast.Del)):
+                stores[x.id] = stores.get(x.id, 0) + 1
+
+        class P(ast.NodeTransformer):
+            def visit_FunctionDef(self, node):
+                if node is fn or fn is None and False:
+                    self.generic_visit(node)
+                elif fn is None:
+                    return node
+                return node
+
+            visit_AsyncFunctionDef = visit_FunctionDef
+
+            def visit_Call(self, node):
+                self.generic_visit(node)
+                if not is_partial(node) or not isinstance(node.args[0], ast.Name):
+                    return node
+                F = defs.get(node.args[0].id)
+                if F is None or F.decorator_list or F.args.vararg or F.args.kwarg or F.args.kwonlyargs or F.args.posonlyargs:
+                    return node
+                if fn is not None and node.args[0].id in stores:
+                    return node
+                bound_pos, bound_kw = node.args[1:], {k.arg: k.value for k in node.keywords}
+                params = [a.arg for a in F.args.args]
+                ndef = len(F.args.defaults)
+                required = params[:len(params) - ndef] if ndef else list(params)
+                if len(bound_pos) > len(params) or any(k not in params for k in bound_kw) or any(k in params[:len(bound_pos)] for k in bound_kw):
+                    return node
+                if not all(simple(a) for a in list(bound_pos) + list(bound_kw.values())):
+                    return node
+                for a in list(bound_pos) + list(bound_kw.values()):
+                    b = a
+                    while isinstance(b, ast.Attribute):
+                        b = b.value
+                    if isinstance(b, ast.Name) and stores.get(b.id, 0) > 1:
+                        return node
+                rest = [p_ for p_ in params[len(bound_pos):] if p_ not in bound_kw and p_ in required]
+                # a keyword binding in the middle makes the later parameters keyword-only for the caller: keep to the plain case
+                if any(p_ in bound_kw for p_ in params[len(bound_pos):len(bound_pos) + len(rest)]):
+                    return node
+                taken = {x.id for x in ast.walk(scope) if isinstance(x, ast.Name)}
+                ren = {p_: (p_ if p_ not in taken else f"_pp_{p_}") for p_ in rest}
+                largs = ast.arguments(posonlyargs=[], args=[ast.arg(arg=ren[p_]) for p_ in rest], vararg=None, kwonlyargs=[], kw_defaults=[], kwarg=None, defaults=[])
+                body_ = [b for b in F.body if not (isinstance(b, ast.Expr) and isinstance(b.value, ast.Constant))]
+                while body_ and isinstance(body_[0], ast.Delete) and all(isinstance(t, ast.Name) and t.id in params for t in body_[0].targets):
+                    gone = {t.id for t in body_[0].targets}
+                    if any(isinstance(x, ast.Name) and x.id in gone for b in body_[1:] for x in ast.walk(b)):
+                        break
+                    body_ = body_[1:]  # deleting an unused parameter has no effect
+                new_helper = node.args[0].id not in known
+                if new_helper and len(body_) == 1 and isinstance(body_[0], ast.Return) and body_[0].value is not None \
+                        and not any(isinstance(x, (ast.Lambda, ast.NamedExpr, ast.Yield, ast.YieldFrom, ast.Await)) for x in ast.walk(body_[0].value)):
+                    mapping = {}
+                    for p_, a in zip(params, bound_pos):
+                        mapping[p_] = a
+                    mapping.update(bound_kw)
+                    for p_ in rest:
+                        mapping[p_] = ast.Name(id=ren[p_], ctx=ast.Load())
+                    if all(p_ in mapping or True for p_ in params):
+                        missing = [p_ for p_ in params if p_ not in mapping]
+                        dmap = dict(zip(params[len(params) - ndef:], F.args.defaults)) if ndef else {}
+                        if all(p_ in dmap and isinstance(dmap[p_], ast.Constant) for p_ in missing):
+                            for p_ in missing:
+                                mapping[p_] = dmap[p_]
+
+                            class S(ast.NodeTransformer):
+                                def visit_Name(self, nd):
+                                    if isinstance(nd.ctx, ast.Load) and nd.id in mapping:
+                                        return ast.copy_location(_clone(mapping[nd.id]), nd)
+                                    return nd
+
+                            lam = ast.Lambda(args=largs, body=S().visit(_clone(body_[0].value)))
+                            n[0] += 1
+                            return ast.copy_location(lam, node)
+                call = ast.Call(func=ast.Name(id=node.args[0].id, ctx=ast.Load()),
+                                args=[_clone(a) for a in bound_pos] + [ast.Name(id=ren[p_], ctx=ast.Load()) for p_ in rest],
+                                keywords=[ast.keyword(arg=k, value=_clone(v)) for k, v in bound_kw.items()])
+                n[0] += 1
+                return ast.copy_location(ast.Lambda(args=largs, body=call), node)
+
+        if fn is None:
+            new_body = []
+            for st in tree.body:
+                if isinstance(st, (ast.FunctionDef, ast.AsyncFunctionDef, ast.ClassDef)):
+                    new_body.append(st)
+                else:
+                    new_body.append(P().visit(st))
+            tree.body = new_body
+        else:
+            tr = P()
+            fn.body = [tr.visit(b) if not isinstance(b, (ast.FunctionDef, ast.AsyncFunctionDef, ast.ClassDef)) else b for b in fn.body]
+    if n[0]:
+        ast.fix_missing_locations(tree)
+    return n[0]
+
+
+def normalise_local_procs(tree, known):
+    """a nested `def g(..)` that is new, is only ever called directly (`g(..)`) inside its enclosing function, binds none of the
+    enclosing function's names and is not recursive is expanded at its call sites like a module-level helper: the names it reads from
+    the enclosing scope are the same names at the call site (a closure reads them when it runs)"""
+    n = 0
+    for outer in [f for f in ast.walk(tree) if isinstance(f, (ast.FunctionDef, ast.AsyncFunctionDef))]:
+        qual, par = [], outer
+        while par is not None:
+            if isinstance(par, (ast.FunctionDef, ast.AsyncFunctionDef, ast.ClassDef)):
+                qual.append(par.name)
+            par = getattr(par, "_parent", None)
+        prefix = ".".join(reversed(qual))
+        for g in [st for st in list(outer.body) if isinstance(st, ast.FunctionDef)]:
+            if g.decorator_list or (prefix + "." + g.name) in known or g.name in known:
+                continue
+            uses = [x for st in outer.body if st is not g for x in ast.walk(st) if isinstance(x, ast.Name) and x.id == g.name]
+            calls = [c for st in outer.body if st is not g for c in ast.walk(st) if isinstance(c, ast.Call) and isinstance(c.func, ast.Name) and c.func.id == g.name]
+            if not uses or len(uses) != len(calls) or any(not isinstance(x.ctx, ast.Load) for x in uses):
+                continue
+            if any(isinstance(x, (ast.Lambda, ast.FunctionDef)) and any(isinstance(y, ast.Name) and y.id == g.name for y in ast.walk(x)) for st in outer.body if st is not g for x in ast.walk(st)):
+                continue  # used from another closure
+            if any(isinstance(x, (ast.Nonlocal, ast.Global, ast.Yield, ast.YieldFrom, ast.Await)) for x in ast.walk(g)):
+                continue
+            g_locals = {x.id for x in ast.walk(g) if isinstance(x, ast.Name) and isinstance(x.ctx, (ast.Store, ast.Del))} | {a.arg for a in g.args.posonlyargs + g.args.args + g.args.kwonlyargs}
+            h = _candidate(g, None)
+            if h is None:
+                continue
+            h.free = set()  # what it reads from the enclosing function is in scope where it is expanded
+            inl = Inliner({g.name: h}, {})
+            body = [st for st in outer.body if st is not g]
+            local_names = {a.arg for a in outer.args.posonlyargs + outer.args.args + outer.args.kwonlyargs}
+            for x in ast.walk(ast.Module(body=body, type_ignores=[])):
+                if isinstance(x, ast.Name) and isinstance(x.ctx, ast.Store):
+                    local_names.add(x.id)
+            local_names.discard(g.name)
+            inl._cur_fn_body = body
+            new_body = inl.run_body([_clone(b) for b in body], None, local_names)
+            left = [x for st in new_body for x in ast.walk(st) if isinstance(x, ast.Name) and x.id == g.name]
+            if left or not inl.count:
+                continue  # not every call could be expanded: leave the function as it is
+            outer.body = new_body or [ast.Pass()]
+            ast.fix_missing_locations(outer)
+            n += inl.count
+    return n
+
+
+def normalise_chain_loops(tree):
+    """`for T in itertools.chain(A, B): BODY` (BODY without break / else; the chain written in the header or bound once to a local
+    used nowhere else) is `for T in A: BODY` followed by `for T in B: BODY`;  `for T in (E for v in S): BODY` is
+    `for v' in S: T = E; BODY` (v' a fresh name: the generator's variable is its own)"""
+    n = 0
+    cnames, mods = set(), set()
+    for st in ast.walk(tree):
+        if isinstance(st, ast.ImportFrom) and st.module == "itertools":
+            for a in st.names:
+                if a.name == "chain":
+                    cnames.add(a.asname or a.name)
+        elif isinstance(st, ast.Import):
+            for a in st.names:
+                if a.name == "itertools":
+                    mods.add(a.asname or a.name)
+
+    def is_chain(e):
+        return isinstance(e, ast.Call) and not e.keywords and len(e.args) >= 2 and not any(isinstance(a, ast.Starred) for a in e.args) and (
+            (isinstance(e.func, ast.Name) and e.func.id in cnames) or (isinstance(e.func, ast.Attribute) and e.func.attr == "chain" and isinstance(e.func.value, ast.Name) and e.func.value.id in mods))
+
+    counter = [0]
+    for fn in [f for f in ast.walk(tree) if isinstance(f, (ast.FunctionDef, ast.AsyncFunctionDef))]:
+        changed = True
+        while changed:
+            changed = False
+            for node in list(ast.walk(fn)):
+                for field in ("body", "orelse", "finalbody"):
+                    stmts = getattr(node, field, None)
+                    if not isinstance(stmts, list) or not stmts or not isinstance(stmts[0], ast.stmt):
+                        continue
+                    for st in list(stmts):
+                        if not isinstance(st, ast.For) or st.orelse:
+                            continue
+                        it = st.iter
+                        drop = None
+                        if isinstance(it, ast.Name):
+                            binds = [a for a in ast.walk(fn) if isinstance(a, ast.Assign) and len(a.targets) == 1 and isinstance(a.targets[0], ast.Name) and a.targets[0].id == it.id]
+                            uses = [x for x in ast.walk(fn) if isinstance(x, ast.Name) and x.id == it.id]
+                            if len(binds) == 1 and len(uses) == 2 and binds[0] in getattr(fn, "body", []) and (is_chain(binds[0].value) or isinstance(binds[0].value, ast.GeneratorExp)):
+                                # nothing between the binding and the loop may run the generator's source: only allow when the loop
+                                # is in the same block or one level down (a try body) and no statement in between calls next()/iterates
+                                it, drop = binds[0].value, binds[0]
+                        if is_chain(it):
+                            if any(isinstance(x, ast.Break) for b in st.body for x in ast.walk(b)):
+                                continue
+                            loops = []
+                            for part in it.args:
+                                lp = ast.For(target=_clone(st.target), iter=part, body=[_clone(b) for b in st.body], orelse=[])
+                                ast.copy_location(lp, st)
+                                ast.fix_missing_locations(lp)
+                                loops.append(lp)
+                            k = stmts.index(st)
+                            stmts[k:k + 1] = loops
+                        elif isinstance(it, ast.GeneratorExp) and len(it.generators) == 1 and not it.generators[0].ifs and not it.generators[0].is_async:
+                            g = it.generators[0]
+                            counter[0] += 1
+                            ren = {x.id: f"_gv{counter[0]}_{x.id}" for x in ast.walk(g.target) if isinstance(x, ast.Name)}
+                            r = _Rename2(ren)
+                            asg = ast.Assign(targets=[st.target], value=r.visit(_clone(it.elt)))
+                            lp = ast.For(target=r.visit(_clone(g.target)), iter=g.iter, body=[asg] + st.body, orelse=[])
+                            for x in (asg, lp):
+                                ast.copy_location(x, st)
+                                ast.fix_missing_locations(x)
+                            stmts[stmts.index(st)] = lp
+                        else:
+                            continue
+                        if drop is not None:
+                            for holder in ast.walk(fn):
+                                for f2 in ("body", "orelse", "finalbody"):
+                                    b2 = getattr(holder, f2, None)
+                                    if isinstance(b2, list) and drop in b2:
+                                        b2.remove(drop)
+                                        if not b2:
+                                            b2.append(ast.Pass())
+                        n += 1
+                        changed = True
+                        break
+                    if changed:
+                        break
+                if changed:
+                    break
+    return n
+
+
 def normalise_local_lambdas(tree, known):
     """a nested `def g(a, b): [del b]; return E` that is new with respect to the pinned inventory and whose name is only read in the
     enclosing function is the value `lambda a, b: E` (deleting an unused parameter has no effect); uses of g become that lambda."""
@@ -2401,6 +2705,7 @@ def normalise_program(trees):
             n_ += k_
             k_ = normalise_ifexp(tree)
         n_ += normalise_shortcircuit(tree)
+        n_ += normalise_chain_loops(tree)
         n_ += normalise_table_unroll(tree)
         n_ += normalise_try_getattr(tree)
         n_ += normalise_enumerate_live(tree)
@@ -2417,7 +2722,9 @@ def normalise_program(trees):
                 for ch_ in ast.iter_child_nodes(x_):
                     ch_._parent = x_
             k_ = normalise_class_consts(tree, set(known0), [t2 for p2, t2 in trees.items() if p2 != path])
+            k_ += normalise_partial(tree, set(known0))
             k_ += normalise_local_lambdas(tree, set(known0))
+            k_ += normalise_local_procs(tree, set(known0))
             for x_ in ast.walk(tree):
                 if hasattr(x_, "_parent"):
                     del x_._parent
